@@ -442,6 +442,9 @@ def run(res, ctx):
                     res.violation("failing-input", "aggregate 'Since inception' %s differs from the sum over error-free securities %s" % (m, good_total),
                                   {"input": r["hc"]})
 
+    # the writers inside the model (Model/Output.v): files, records, sections and closing line of the real binary
+    import outputmodel
+    outputmodel.check_pass(res, ctx, "C04", rng)
     # replay the witness of every listed finding on the current tree
     for k in known:
         w = k.get("witness", {})
